@@ -27,7 +27,7 @@ PLANS = {
         (2, 1, 1, "m3", "m3", "all", "le1", "all", "all", "all", 2),
         (1, 2, 1, "m3", "m3", "all", "all", "le1", "all", "all", 2),
         (2, 2, 1, "m3", "m3", "all", "probe", "probe", "all", "all", 8),
-        (2, 2, 2, "m3", "m3", "all", "le1", "le1", "all", "all", 8),
+        (2, 2, 2, "m3", "m3", "all", "le1", "probe", "all", "all", 8),
         (3, 2, 1, "m2", "m2", "two", "probe", "probe0", "some", "some", 8),
         (3, 2, 2, "m2", "m2", "two", "probe", "probe", "some", "all", 12),
         (3, 3, 2, "m2", "m1", "two", "probe0", "probe0", "some", "some", 12),
@@ -59,6 +59,10 @@ META = {
 }
 
 
+class _SkipConj(Exception):
+    pass
+
+
 def as_obs(sym, c, frame, dtype):
     """(kind tuple, value) of a result"""
     import symmray as sr
@@ -75,7 +79,9 @@ def same(o1, o2):
     return o1[0] == o2[0] and exact_equal(o1[1], o2[1])
 
 
-def pair_failures(a_d, b_d, axes_a, axes_b, st=None):
+def pair_failures(a_d, b_d, axes_a, axes_b, st=None, light=False):
+    """light: larger structures - the auto mode (same code path as fused), the conjugated pair and the concat strategy are
+    only exercised on the smaller plans"""
     import symmray as sr
 
     sym, ferm = a_d["sym"], a_d["ferm"]
@@ -97,7 +103,7 @@ def pair_failures(a_d, b_d, axes_a, axes_b, st=None):
             return None
 
     # (i) strategies agree as arrays
-    for mode in ("blockwise", "fused", "auto"):
+    for mode in ("blockwise", "fused") + (() if light else ("auto",)):
         c = run(f"direct[{mode}]", lambda: sr.tensordot(a, b, axes, mode=mode, preserve_array=True))
         if c is not None:
             results[mode] = c
@@ -125,6 +131,8 @@ def pair_failures(a_d, b_d, axes_a, axes_b, st=None):
             fails.append((f"C06/strategies/{mode}/indices", f"index tables differ from blockwise: {[dict(i.chargemap) for i in c.indices]} vs {[dict(i.chargemap) for i in ref.indices]}"))
     # (i') the conjugated pair, contracted after the direct calls (the operands' index objects are hashed by now)
     try:
+        if light:
+            raise _SkipConj()
         ac_, bc_ = a.conj(), b.conj()
         cb = run("conj-pair[blockwise]", lambda: sr.tensordot(ac_, bc_, axes, mode="blockwise", preserve_array=True))
         cf = run("conj-pair[fused]", lambda: sr.tensordot(ac_, bc_, axes, mode="fused", preserve_array=True))
@@ -136,6 +144,8 @@ def pair_failures(a_d, b_d, axes_a, axes_b, st=None):
                 fails.append(("C06/conj-pair/fused/value", "contraction of the conjugated operands: fused differs from blockwise"))
             elif tuple(index_key(i) for i in cf.indices) != tuple(index_key(i) for i in cb.indices):
                 fails.append(("C06/conj-pair/fused/indices", "contraction of the conjugated operands: index tables differ from blockwise"))
+    except _SkipConj:
+        pass
     except (KeyError, ValueError) as e:
         fails.append(("C06/conj-pair/frame", repr(e)))
     # (ii) align, fuse the contracted axes, contract the single pair
@@ -145,7 +155,7 @@ def pair_failures(a_d, b_d, axes_a, axes_b, st=None):
         if al is not None:
             a2, b2 = al
             pa, pb = min(axes_a), min(axes_b)
-            strategies = ("insert", "concat") if not ferm else ("auto",)
+            strategies = (("insert",) if light else ("insert", "concat")) if not ferm else ("auto",)
             for strat in strategies:
                 if ferm:
                     af = run("fuse-contracted[a]", lambda: a2.fuse(tuple(axes_a)))
@@ -256,7 +266,7 @@ def run_group(ctx, group):
                 for la, lb in lv:
                     a_use = dict(a_d, oddpos=la) if ferm else a_d
                     b_use = dict(b_d, oddpos=lb) if ferm else b_d
-                    fails, nt = pair_failures(a_use, b_use, axes_a, axes_b, st)
+                    fails, nt = pair_failures(a_use, b_use, axes_a, axes_b, st, light=(pi >= 5 and not ctx.thorough))
                     st.evaluations += 1
                     st.traces += 1
                     st.nontrivial += int(nt)
